@@ -54,8 +54,9 @@ ALL_FAM = ['did', 'node', 'sao', 'block', 'bank', 'staking', 'fault', 'select']
 PROPS = {
     'C01': {
         'theorems': 'Properties/C01', 'obligation_files': ['Obligations/ObAmbient'],
-        'profiles': [SAO, STAKING, DID, NODE],
-        'projection': ['*'], 'monitors': ['frame.rejected_unchanged'], 'families': ['did', 'node', 'sao', 'block', 'bank', 'staking', 'fault'],
+        'profiles': [SAO, STAKING, DID, NODE, P('twin:sao', 4, 48, 150), P('twin:staking', 6, 64, 150), P('twin:did', 2, 16, 120), P('twin:node', 2, 16, 150),
+                     P('twin:scenario:d10-residue', 1, 1, 0)],
+        'projection': ['*'], 'monitors': ['frame.rejected_unchanged', 'twin.'], 'families': ['did', 'node', 'sao', 'block', 'bank', 'staking', 'fault'],
         'extra': ['twin'],
     },
     'C02': {
@@ -66,8 +67,8 @@ PROPS = {
     },
     'C03': {
         'theorems': 'Properties/C03', 'obligation_files': ['Obligations/ObAmbient'],
-        'profiles': [STAKING, NODE],
-        'projection': ['proc.sharesBeforeModified', 'node.Node#5', 'node.Node#6'], 'monitors': ['proc.'], 'families': ['staking', 'node', 'block'],
+        'profiles': [STAKING, NODE, P('twin:staking', 6, 64, 150)],
+        'projection': ['proc.sharesBeforeModified', 'node.Node#5', 'node.Node#6'], 'monitors': ['proc.', 'twin.'], 'families': ['staking', 'node', 'block'],
     },
     'C04': {
         'theorems': 'Properties/C04', 'obligation_files': ['Obligations/ObShape'],
@@ -158,9 +159,8 @@ PROPS = {
     },
     'C18': {
         'theorems': 'Properties/C18', 'obligation_files': ['Obligations/ObGenesis'],
-        'profiles': [],
-        'projection': ['genesis'], 'monitors': ['genesis.'], 'families': ['genesis'],
-        'extra': ['genesis'],
+        'profiles': [P('genesis', 12, 200, 120)],
+        'projection': ['*'], 'monitors': ['genesis.'], 'families': ['genesis'],
     },
     'C19': {
         'theorems': 'Properties/C19', 'obligation_files': [],
